@@ -187,7 +187,11 @@ static void gen_key(chist *h, vh_rng *r, unsigned g, int tweaked)
         int k, cand[16], nc = 0; unsigned maxk = tweaked ? c->tkey_max : c->key_max;
         for (k = 0; k < h->n - 1 && nc < 16; ++k) if ((h->ops[k].kind == C_SET_KEY || h->ops[k].kind == C_SET_TKEY) && !(h->ops[k].flags & F_NULL_PTR) && h->ops[k].dlen >= c->bb && h->ops[k].expect != 0) cand[nc++] = k;
         if (nc) { const cop *q = &h->ops[cand[vh_below(r, (uint32_t)nc)]]; unsigned n; if (vh_below(r, 2) && q->len <= maxk && q->len >= c->bb) o->len = q->len; n = q->dlen < o->len ? q->dlen : o->len; memcpy(buf, h->pool + q->doff, n); o->cls = tweaked ? "set_tweaked_key(a key used before)" : "set_key(a key used before)";
-                  if (!vh_below(r, 3)) { vh_related(r, buf, h->pool + q->doff, n); o->cls = tweaked ? "set_tweaked_key(related to an earlier key)" : "set_key(related to an earlier key)"; } }
+                  if (!vh_below(r, 3)) { vh_related(r, buf, h->pool + q->doff, n); o->cls = tweaked ? "set_tweaked_key(related to an earlier key)" : "set_key(related to an earlier key)"; }
+                  else if (c->id != CIPH_MANTIS && !vh_below(r, 2)) {      /* the earlier key extended / cut by zero bytes to another accepted size */
+                      unsigned m = q->dlen, lo = c->bb; while (m > lo && h->pool[q->doff + m - 1] == 0) --m;
+                      o->len = c->bb * (1 + vh_below(r, 3)); if (o->len < m) o->len = (m + c->bb - 1) / c->bb * c->bb; if (o->len > maxk) o->len = maxk;
+                      if (o->len >= m) { memset(buf, 0, sizeof(buf)); memcpy(buf, h->pool + q->doff, m); o->cls = tweaked ? "set_tweaked_key(an earlier key zero-extended or cut)" : "set_key(an earlier key zero-extended or cut)"; } } }
     }
     o->doff = pool_put(h, buf, o->len); o->dlen = o->len;
     placement(o, r, g);
@@ -411,8 +415,11 @@ void chist_gen(chist *h, const vh_cipher *c, vh_rng *r, unsigned g)
                 if (started && !(g & G_REKEY_MID)) { gen_counter(h, r, g); started = 0; }
             }
         } else if (x < 85) {
-            int tw = c->has_tkey && ((g & G_TWEAKED_ONLY) || vh_below(r, 2));
+            int tw = c->has_tkey && ((g & G_TWEAKED_ONLY) || vh_below(r, 2)), was_tw = tweaked;
             gen_key(h, r, g, tw); keyed = 1; tweaked = tw;
+            /* cross-back-end histories: a tweak set straight after a tweaked key, and straight after changing from a tweaked to a plain
+               key (the remembered tweak of an incremental set_tweak is live state that every back end must treat alike) */
+            if ((g & G_PLAIN_TWEAK) && c->has_tkey && (tw || was_tw) && vh_below(r, 2)) gen_tweak(h, r, g);
             if (started && !(g & G_REKEY_MID)) { gen_counter(h, r, g); started = 0; }
         } else if (x < 90 && (g & G_LIFECYCLE)) {
             int k;
